@@ -251,7 +251,7 @@ def random_qn_mps(model, desc, rng, cplx, maxm=4, tries=12):
         except (FloatingPointError, ValueError, AssertionError, ZeroDivisionError, IndexError) as e:
             last = e
             continue
-        if rng.random() < 0.5:
+        if model.nsite >= 2 and rng.random() < 0.5:   # (add on a one-site chain is ill-formed: C03's business)
             seed_global(rng)
             try:
                 with np.errstate(all="raise"):
